@@ -202,8 +202,10 @@ class TaskScenario(ScenarioData):
                 # Predecessor not scheduled yet - we can't derive our end
                 return False
 
-        # Check if all successors are scheduled (for finish-to-start deps)
-        successors = self._getSuccessors()
+        # Check if all successors are scheduled (for finish-to-start deps). Only successors that
+        # are placed backward as well are waited for: a forward successor waits for THIS task
+        # (waiting for each other, neither would ever be placed)
+        successors = [s for s in self._getSuccessors() if not s.get("forward", self.scenarioIdx)]
         if not successors:
             # No successors and no explicit end - use project end as default
             # (unless we have onstart deps, which we checked above)
